@@ -26,6 +26,15 @@ RULE = (
 )
 
 ASSUMPTIONS = [
+    "TTL scenarios (every round, both stores, own store instance each): six records written within a few ms (1 s TTLs, some "
+    "extended by update_ttl / update, a 1 h TTL shortened to 1 s), then - at least 1.1 s later - delete_expired (all at once or in "
+    "batches of one) and loads: extended records must still be there with the state last written, the others gone, and "
+    "delete_expired must not report more deletions than there are expired records (it need not reap all of them: SQLite leaves "
+    "a record that expired within the current second to the next sweep). SQLite scenarios start in the first 600 ms of a "
+    "wall-clock second (a deadline is the floor of now + ttl); a failing write more than 300 ms after a scenario began is "
+    "inconclusive. Boundary probe (SQLite, one per round): create(x, 1 s), poll load every 2 ms until it reports None, then "
+    "update_ttl(x, 1 h) must report an unknown id and load must still report None. Sequential histories also contain "
+    "idempotent updates (the very state and TTL of the last write to the id)",
     "the reference model (Map<id, absent | expired-row-maybe-present | live(token, ttl class)>) encodes the "
     "statement of C13: create on a live id may return Ok or DuplicateId but never changes the record; "
     "change_id of a record onto itself may return Ok or DuplicateId; change_id with old not live and new live "
